@@ -55,6 +55,7 @@ type Machine struct {
 	events   []pathEvent
 	loopMax  int
 	observes []observed
+	lastSite string
 }
 
 type observed struct {
@@ -91,7 +92,12 @@ type frame struct {
 	defers []deferred
 }
 
-func (m *Machine) end(kind, msg string) { panic(pathEnd{kind, msg}) }
+func (m *Machine) end(kind, msg string) {
+	if kind == "gopanic" {
+		m.lastSite = m.panicSite()
+	}
+	panic(pathEnd{kind, msg})
+}
 
 // panicSite names the innermost function of /repo on the call stack (stable fingerprint).
 func (m *Machine) panicSite() string {
